@@ -50,7 +50,8 @@ def main():
         d = os.path.join(VERIF, "seeded", f"{prop}-{('r' + rnd) if rnd else ''}{m}") if fromrepo else os.path.join(base, m)
         if not os.path.exists(os.path.join(d, "patch.diff")):
             continue
-        sh(["git", "-C", wt, "checkout", "--", "."])
+        sh(["git", "-C", wt, "reset", "--hard", "-q"])      # also clears a failed 3-way merge of the previous seed
+        sh(["git", "-C", wt, "clean", "-fdq"])
         res = {"mutation": f"{prop}-{('r' + rnd) if rnd else ''}{m}", "repo_head": sh(["git", "-C", "/repo", "rev-parse", "--short", "HEAD"])[1].strip()}
         rc0, o0 = sh([PY, os.path.join(d, "demo.py")], cwd=wt, env=env, timeout=900)
         res["demo_clean_rc"] = rc0
@@ -94,7 +95,7 @@ def main():
         results.append(res)
         print(json.dumps({k: res[k] for k in ("mutation", "demo_clean_rc", "demo_mutated_rc", "suite_baseline",
                                                 "detected", "with_failing_input")}))
-    sh(["git", "-C", wt, "checkout", "--", "."])
+    sh(["git", "-C", wt, "reset", "--hard", "-q"])
     sh(["git", "-C", "/repo", "worktree", "remove", "--force", wt])
 
 
